@@ -421,8 +421,8 @@ def andrade(
     """
 
     andrade_term = compliance * viscosity * frequency * zeta
-    andrade_term = (np.abs(andrade_term) <= float_eps) * 1.0e-100 + \
-                   (np.abs(andrade_term) > float_eps) * andrade_term
+    andrade_term = (andrade_term == 0.) * 1.0e-100 + \
+                   (andrade_term != 0.) * andrade_term
 
     const_term = compliance * andrade_term**(-alpha) * find_factorial(alpha)
 
@@ -507,8 +507,8 @@ def andrade_freq(
 
     # Continue on with regular Andrade calculation
     andrade_term = compliance * viscosity * frequency * updated_zeta
-    andrade_term = (np.abs(andrade_term) <= float_eps) * 1.0e-100 + \
-                   (np.abs(andrade_term) > float_eps) * andrade_term
+    andrade_term = (andrade_term == 0.) * 1.0e-100 + \
+                   (andrade_term != 0.) * andrade_term
 
     const_term = compliance * andrade_term**(-alpha) * find_factorial(alpha)
 
